@@ -60,9 +60,16 @@ Proof. split; [apply mem_In; vm_compute; reflexivity | vm_compute; reflexivity].
 (* ---- F4: holds on the code as it is; after the repair this theorem fails and
         py_emitted_accepted below (currently conditional) takes over ---- *)
 Theorem take_max_refuted :
-  In take_max py_emitted /\ ts_validate_action take_max = Err RuntimeError /\ ~ In take_max schema_actions.
+  In take_max py_emitted /\ ts_validate_action take_max = Err RuntimeError /\ In take_max schema_actions.
 Proof.
   split; [apply mem_In; vm_compute; reflexivity|].
   split; [vm_compute; reflexivity|].
-  intros H. apply mem_In in H. vm_compute in H. discriminate.
+  apply mem_In; vm_compute; reflexivity.
+Qed.
+
+(* since /repo commit 06b95f5 the published schema lists take_max: every emitted action is in the schema *)
+Theorem py_emitted_in_schema : forall a, In a py_emitted -> In a schema_actions.
+Proof.
+  assert (H : forallb (fun a => mem a schema_actions) py_emitted = true) by (vm_compute; reflexivity).
+  rewrite forallb_forall in H. intros a Ha. apply mem_In. exact (H a Ha).
 Qed.
